@@ -7,7 +7,7 @@ from ..effects import effects_for, loc_show
 from ..lib import Facts, calls_in, len_eq, own_nodes, stmt_of
 from ..model import AnalysisError
 from ..report import Run
-from ..terms import TermCtx, show, strip_sites, unphi_terms
+from ..terms import TermCtx, contains, show, strip_sites, unphi_terms
 
 EXPLANATION = (
     "in _extract_metadata.visit_Call the wrapper case appends the wrapper's own dictionary before it visits the wrapper's source (outer "
@@ -180,6 +180,29 @@ def check(run: Run) -> None:
         run.fail("C15.R4", rem, x.stmt, f"remove_empty_metadata mutates the ast it is given ({x.kind} on {loc_show(x.loc)}{' via ' + x.via if x.via else ''}); cleaner is {eff.kind.get(cc.qual)}: {eff.cow_reason.get(cc.qual)}", "visit a deep copy, or make generic_visit copy the node and every list field before delegating")
     if not bad:
         run.ok("C15.R4", rem, "no mutation primitive reaches the argument", run.notes["cleaner_kind"])
+
+    # ---------------- R5: "returns a new ast": unless the argument was copied as a whole, no handler of the cleaner hands back a
+    # node of the argument itself - a sub-tree returned as it came is shared between the result and the ast that was given,
+    # and value() hands that result to executors, which post-process what they receive in place
+    run.rule("C15.R5", "the result of remove_empty_metadata shares no node with its argument: every handler of the cleaner returns (something built from) the copy made by its generic_visit, never the node it was handed")
+    whole_copy = rrt[0] == "tvisit" and rrt[2] == ("app", ("global", "copy.deepcopy"), (arg,), ())
+    n_h = 0
+    if not whole_copy:
+        from ..visitors import dispatch_entries
+
+        for ent in dispatch_entries(m, cc):
+            en = getattr(ent, "entry_name", ent.name)
+            if len(ent.pos_params) < 2:
+                continue
+            n_h += 1
+            fe = ctx.analysis(ent)
+            np_ = ("param", ent.pos_params[1])
+            for s_, nd_ in fe.returns():
+                t_ = strip_sites(fe.term_of(s_.value, nd_)) if s_.value is not None else ("const", None)
+                for a_ in unphi_terms(t_):
+                    raw = a_ == np_ or (a_[0] in ("attr", "index") and contains(a_, lambda q: q == np_) and not contains(a_, lambda q: q[0] in ("gvisit", "visit", "tvisit", "app")))
+                    run.check(not raw, "C15.R5", ent, s_, f"{en} returns a copy", f"{en} of the empty-metadata cleaner returns {show(a_)[:60]} - the very node it was handed, not a copy: that sub-tree (a whole lambda, say) is shared between the 'new ast' and the stream's own query, so an executor that normalises the ast it receives in place (method calls to function calls, ..) rewrites the stream, its ancestors and its siblings", "return self.generic_visit(node)", show(a_)[:200], key=f"cleaner handler {en} returns its node uncopied")
+    run.notes["cleaner_handlers_checked"] = n_h
 
 
 def _subst_param(t, old, new):
